@@ -62,6 +62,18 @@ def _judge(ctx, idx, cls, info, mode, vals, model_enc, model_dec_of):
                     expected='bytes', observed=real[0])
         return
     data = real[1]
+    # --- the second public encoder (pack_message -> array) must produce the same bytes
+    try:
+        from pyipmi.msgs.message import pack_message
+        obj = cls()
+        cc.set_values(obj, fields, vals)
+        packed = bytes(bytearray(pack_message(obj)))
+    except Exception as e:  # noqa
+        packed = type(e).__name__
+    if packed != data:
+        ctx.violate('C01:pack-vs-encode:%s' % name,
+                    'pack_message and encode_message disagree for %s' % name, case,
+                    expected=lean.hexs(data), observed=packed if isinstance(packed, str) else lean.hexs(packed))
     # --- property: decode(encode(x)) = x and re-encode = bytes, on the real code
     dec = cc.decode_real(cls, fields, data)
     if dec[0] != 'ok':
